@@ -5,6 +5,7 @@ package main
 // C19: concurrent senders / closer / receiver on a real BaseConn, recorded for TLC.
 
 import (
+	"io/ioutil"
 	"strings"
 	"bytes"
 	"encoding/json"
@@ -447,6 +448,7 @@ type connScript struct {
 	RClose   bool  `json:"rclose"`     // peer closes after feeding
 	WDelayUS int   `json:"wdelay_us"`
 	FailD    int   `json:"faildeadline"` // n-th SetReadDeadline fails
+	Carrier  string `json:"carrier"`    // "" = scripted in-memory carrier, "tcp" = real TCP on loopback (logged net.Conn)
 	BlockW   int   `json:"blockwrite"`   // n-th carrier write blocks until the carrier is closed (back pressure)
 }
 
@@ -498,11 +500,54 @@ func intsOf(b []byte) []int {
 
 func runConnScenario(s *connScript) *trace.Log {
 	log := trace.New(s.ID)
-	car := link.NewCarrier(log, "k1")
-	car.FailWrite, car.FailRead, car.FailClose, car.PartialWrite = s.FailW, s.FailR, s.FailC, s.Partial
-	car.FailDeadline, car.BlockWrite = s.FailD, s.BlockW
-	car.WriteDelay = time.Duration(s.WDelayUS) * time.Microsecond
-	conn := transport.NewBaseConn(car)
+	type baseConn interface {
+		Send(pkt packet.Generic, async bool) error
+		Receive() (packet.Generic, error)
+		Close() error
+		SetReadTimeout(time.Duration)
+		SetMaxWriteDelay(time.Duration)
+	}
+	var conn baseConn
+	var feedFn func([]byte)
+	var rcloseFn func()
+	if s.Carrier == "tcp" {
+		// a real TCP connection on loopback; the peer reads (and discards) everything it is sent
+		ln, err := net.Listen("tcp", "127.0.0.1:0")
+		if err != nil {
+			panic(err)
+		}
+		defer ln.Close()
+		acc := make(chan net.Conn, 1)
+		go func() {
+			c, err := ln.Accept()
+			if err == nil {
+				acc <- c
+			}
+		}()
+		raw, err := net.Dial("tcp", ln.Addr().String())
+		if err != nil {
+			panic(err)
+		}
+		peer := <-acc
+		defer peer.Close()
+		go io.Copy(ioutil.Discard, peer)
+		lc := &link.LogConn{Conn: raw, Log: log, Name: "k1", FailWrite: s.FailW, FailRead: s.FailR, FailClose: s.FailC, FailDeadline: s.FailD, PartialWrite: s.Partial}
+		conn = transport.NewNetConn(lc)
+		feedFn = func(b []byte) { peer.Write(b) }
+		rcloseFn = func() {
+			if tc, ok := peer.(*net.TCPConn); ok {
+				tc.CloseWrite()
+			}
+		}
+	} else {
+		car := link.NewCarrier(log, "k1")
+		car.FailWrite, car.FailRead, car.FailClose, car.PartialWrite = s.FailW, s.FailR, s.FailC, s.Partial
+		car.FailDeadline, car.BlockWrite = s.FailD, s.BlockW
+		car.WriteDelay = time.Duration(s.WDelayUS) * time.Microsecond
+		conn = transport.NewBaseConn(car)
+		feedFn = car.Feed
+		rcloseFn = car.RemoteClose
+	}
 	delay := time.Duration(s.DelayMS) * time.Millisecond
 	conn.SetMaxWriteDelay(delay)
 	feedLens := []int{}
@@ -539,9 +584,9 @@ func runConnScenario(s *connScript) *trace.Log {
 	if s.Timeout > 0 {
 		conn.SetReadTimeout(time.Duration(s.Timeout) * time.Millisecond)
 	}
-	car.Feed(feed)
+	feedFn(feed)
 	if s.RClose {
-		car.RemoteClose()
+		rcloseFn()
 	}
 	// receiver
 	wg.Add(1)
